@@ -1,23 +1,14 @@
-# Per-property configuration for ./run: which test entry points make up a check, how many
-# cases each tier draws, over how many worker processes, and the rule/assumption texts that
-# go into the evidence file.  Case counts are budgets, never time limits.
+# Per-property configuration for ./run is kept next to each check: harness/checks/<cXX>/check.json
+#   pkg          Go package of the check (relative to harness/)
+#   units        list of test entry points: {test, kind: rapid|plain, shards, checks{quick,thorough}, timeout{quick,thorough},
+#                race: bool, tiers: [..], env: {NAME: value | {quick:..,thorough:..}}, steps{quick,thorough}}
+#   rule         text for evidence.coverage.rule (generation + non-trivial/distinct rule)
+#   assumptions  list of strings for evidence.assumptions
+# Case counts are budgets, never time limits.
+import glob, json, os
 
 CHECKS = {}
-
-CHECKS["C15"] = {
-    "pkg": "./checks/c15",
-    "units": [
-        {"test": "TestEnum", "kind": "plain", "shards": 4},
-        {"test": "TestProp", "kind": "rapid", "shards": {"quick": 16, "thorough": 16}, "checks": {"quick": 400000, "thorough": 8000000}},
-        {"test": "TestText", "kind": "rapid", "shards": {"quick": 8, "thorough": 16}, "checks": {"quick": 80000, "thorough": 1500000}},
-    ],
-    "rule": "TestEnum: every ordered pair from a ~75-value boundary set (around 0, 2^31..2^33, 2^62..2^65, 2^95/96, 2^126..2^128-1, "
-            "multiples of 10^24) x {add,sub,mul,div,cmp} and every (value, uint64 boundary) x {mul64,div64}, enumerated completely; "
-            "TestProp: rapid-drawn operands of every bit length plus dividends engineered as q*v+r, r in {0,1,v-1}, v>=2^64; "
-            "TestText: round trips of %d/ExactString/String/MarshalText/JSON/binary, exact scaled parsing in every unit, and "
-            "rejection classes (negative, fractional hastings, >=2^128, unknown unit, not a number). Oracle: math/big. "
-            "Non-trivial: exact result within 2 of 2^64 or 2^128, division by zero, Div taking the trial-quotient adjust branch, "
-            "Div64 two-step path, comparisons differing by <=2 or with Hi/Lo ordered oppositely; text: fractional mantissa / TS suffix / "
-            "max value / any rejection case. Distinct by (op, operands) or by text.",
-    "assumptions": ["math/big is correct", "division by zero is documented to panic; Add/Sub/Mul/Mul64 are documented to panic on overflow"],
-}
+_here = os.path.dirname(os.path.abspath(__file__))
+for _p in sorted(glob.glob(os.path.join(_here, "harness", "checks", "*", "check.json"))):
+    _id = os.path.basename(os.path.dirname(_p)).upper()
+    CHECKS[_id] = json.load(open(_p))
